@@ -365,10 +365,10 @@ def build_cases(ctx, rng, thorough, idx_cases, behaviours, sims, presets=(), att
     if thorough and len(plist) > 1500:
         singles = [p for p in plist if len(p[0]) <= 1]
         pairs = [p for p in plist if len(p[0]) > 1]
-        plist = singles + pairs[:: len(pairs) // 1200 + 1]
+        plist = singles + pairs[:: len(pairs) // 500 + 1]
     for j, (pset, kind) in enumerate(plist):
         names = [attrs[a - 1] for a in pset]
-        for si in ([j % len(all_src)] if not thorough else [j % len(all_src), (j + 2) % len(all_src)]):
+        for si in ([j % len(all_src)] if not (thorough and len(pset) <= 1) else [j % len(all_src), (j + 2) % len(all_src)]):
             if kind in ("xsec", "faces_at"):
                 # constant-latitude queries in the bulge band of a wide face, after the attributes were read
                 op = {"t": "lat", "kind": "face", "pick": j + si, "mode": "band"}
@@ -483,7 +483,7 @@ def run(ctx):
     presets = gen_presets(ctx, len(attrs), 2 if thorough else 1)
     sel_hists = gen_selection_histories(ctx, 3)
     if thorough:
-        sel_hists = sel_hists + gen_selection_histories(ctx, 4)[::7]
+        sel_hists = sel_hists + gen_selection_histories(ctx, 4)[::40]
     cases = build_cases(ctx, rng, thorough, idx_cases, behaviours, sims, presets, attrs, sel_hists)
     if not thorough:
         # quick tier: thin the large families by a fixed stride (deterministic)
